@@ -69,11 +69,11 @@ def rdata_names(recs):
     for (_o, ty, _ttl, rd) in recs:
         if ty in NAME_AT and len(rd) > NAME_AT[ty]:
             nm, end = parse_name(rd, NAME_AT[ty])
-            if nm:
+            if nm and wire_len(nm) <= 255:
                 out.append(nm)
                 if ty == 6:
                     nm2, _ = parse_name(rd, end)
-                    if nm2:
+                    if nm2 and wire_len(nm2) <= 255:
                         out.append(nm2)
     return out
 
@@ -109,7 +109,7 @@ def pick_key_name(rng, apex, qname, targets):
         elif v < 0.8:
             k = [b"k"] + list(t[1:])
         else:
-            k = pad_to(rng, list(t), rng.choice([255, 200, rng.randint(wire_len(t), 255)]), b"k")
+            k = pad_to(rng, list(t), rng.choice([255, 200, rng.randint(min(255, wire_len(t)), 255)]), b"k")
     else:
         v = rng.random()
         if v < 0.3:
